@@ -8,6 +8,8 @@ CONSTANTS
   MaxWrite = 2
   Validates = {FALSE, TRUE}
   SetClass = "all"
+  MaxEdit = 0
+  MaxAssign = 0
   UpdEnabled = {FALSE}
   Deviations = {}
 VIEW vw
